@@ -70,7 +70,9 @@ func runC13(c *hx.Ctx) {
 	budgetGrowth := &sumBudget{left: 25000 * scale}
 	budgetInterf := &sumBudget{left: 45000 * scale}
 	// ---- known finding K10: the deterministic corpus scenario, first on every seed
-	sumK10Probe(c, budget)
+	sumK10Probe(c, &sumBudget{left: 1e9}) // own budget: the model-side sample of the other streams is unchanged
+	// ---- the split-view server against checkTrees, fixed parameters on every seed
+	sumSplitViewCorpus(c)
 	// ---- forks
 	for b := 0; b < c.N(260); b++ {
 		sc := forkBase(r)
@@ -274,8 +276,19 @@ func runC13(c *hx.Ctx) {
 			for _, res := range run.Results[1:] {
 				c.Count("overlap:" + note + ":" + res.Class)
 			}
+			// two simultaneous holds: lookup 2 (which does not share the parked tile) installs its head
+			// in memory and is held just before it reads the stored configuration; lookup 1 is released
+			// first and must notice that c.latest moved underfoot (retry branch against the NEW head),
+			// then lookup 2 merges with whatever lookup 1 stored — and the other release order
+			// (random stream: forks only, every second hold point, lookup 1 released first — the other
+			// order is the single-hold run above; the corpus below tries all of them)
+			if note == "overlap-fork" && len(seen)%2 == 1 {
+				sumOverlapTwoHolds(c, sc, note, e.Kind, e.Name, [][]int{{1, 2}})
+			}
 		}
 	}
+	// the same with fixed parameters on every seed: head on the common prefix 5, A8 against B7, height 2
+	sumOverlapCorpus(c)
 	// ---- interleavings of the CONFIGURATION operations (oracle only): a long-lived client P with two
 	// overlapping lookups, each held just before it reads (rcfg) or just before it writes (wcfg) the
 	// stored head, and a second client Q sharing the configuration that stores a head in between —
@@ -377,5 +390,77 @@ func runC13(c *hx.Ctx) {
 		}
 		sc.Note = "interf-" + kind
 		sumDo(c, sc, budgetInterf, b%2 == 0)
+	}
+}
+
+// sumOverlapTwoHolds runs the three-step overlap scenario sc (steps 1 and 2 overlapping on one client)
+// with lookup 1 parked at the tile operation (kind, name) and lookup 2 parked at its ReadConfig of the
+// stored head, for the given release orders.
+func sumOverlapTwoHolds(c *hx.Ctx, sc gen.SumScenario, note, kind, name string, orders [][]int) {
+	latest := gen.SumName + "/latest"
+	for _, rel := range orders {
+		f := sc.Clone()
+		f.Note = note + "-2holds"
+		f.Par = &gen.SumPar{Step: 1, Kind: kind, Path: name, Count: 1,
+			More: []gen.SumPark{{Step: 2, Kind: "rcfg", Path: latest}}, Release: rel}
+		run := sumDo(c, f, nil, false)
+		for _, res := range run.Results[1:] {
+			c.Count("overlap2:" + note + ":" + res.Class)
+		}
+	}
+}
+
+// sumOverlapCorpus: one long-lived client at H5 (common prefix 5 of logs A (8 records) and B (7)),
+// lookup 1 is shown A8, lookup 2 (of an old record) is shown B7; every tile operation of lookup 1
+// is tried as its hold point, lookup 2 is held before its ReadConfig.
+func sumOverlapCorpus(c *hx.Ctx) {
+	sc := gen.SumScenario{Seed: 1313, H: 2, NA: 8, NB: 7, K: 5, ForgeID: -1}
+	sc.Cache = gen.SumCacheSpec{Corrupt: -1}
+	rec := func(side, id int) (string, string) {
+		p, v, _ := gen.SumRecordOf(sc.Seed, side, id)
+		return p, v
+	}
+	p0, v0 := rec(0, 4)
+	p1, v1 := rec(0, 7)
+	p2, v2 := rec(0, 0)
+	sc.Steps = []gen.SumStep{
+		{Client: 0, View: gen.HonestView(0, 5), Path: p0, Vers: v0},
+		{Client: 0, View: gen.HonestView(0, 8), Path: p1, Vers: v1},
+		{Client: 0, View: gen.HonestView(1, 7), Path: p2, Vers: v2},
+	}
+	sc.Note = "overlap-corpus seq"
+	seq := sumDo(c, sc, nil, false)
+	seen := map[string]bool{}
+	for _, e := range seq.Events {
+		if e.Step != 1 || !(e.Kind == "rr" || e.Kind == "rc") || !strings.Contains(e.Name, "/tile/") || seen[e.Kind+e.Name] {
+			continue
+		}
+		seen[e.Kind+e.Name] = true
+		sumOverlapTwoHolds(c, sc, "overlap-corpus", e.Kind, e.Name, [][]int{{1, 2}, {2, 1}})
+	}
+}
+
+// sumSplitViewCorpus: logs A and B (19 records each) share their first 4 records; the client has
+// stored A5; the server presents B19 and, to hide the fork, answers exactly the tile requests needed
+// for recomputing the old tree hash (tile/2/1/000 and tile/2/0/001) with A's tiles at size 19 and
+// everything else with B's.  The new size has two tree-hash hashes in one tile, so a reader that
+// authenticates too few tiles against their parents accepts the forged ones.  Same client, and a
+// restarted one.
+func sumSplitViewCorpus(c *hx.Ctx) {
+	for _, client := range []int{0, 1} {
+		sc := gen.SumScenario{Seed: 1919, H: 2, NA: 19, NB: 19, K: 4, ForgeID: -1, Note: "splitview-corpus"}
+		sc.Cache = gen.SumCacheSpec{Corrupt: -1}
+		pa, va, _ := gen.SumRecordOf(sc.Seed, 0, 4)
+		pb, vb, _ := gen.SumRecordOf(sc.Seed, 1, 18)
+		sc.Steps = []gen.SumStep{
+			{Client: 0, View: gen.HonestView(0, 5), Path: pa, Vers: va},
+			{Client: client, View: gen.HonestView(1, 19), Path: pb, Vers: vb},
+		}
+		sc.Faults = []gen.SumFault{
+			{Path: "/tile/2/1/000", Occ: 0, Kind: "side", P1: 0},
+			{Path: "/tile/2/0/001", Occ: 0, Kind: "side", P1: 0},
+		}
+		run := sumDo(c, sc, &sumBudget{left: 1e9}, true)
+		c.Count("splitview-corpus:" + strings.Join(sumClasses(run), ","))
 	}
 }
